@@ -5,7 +5,8 @@
    250 ms of a whole second has a two-second window and either outcome is accepted).
 
    Monitor (the cache behaves like the abstract store): an insertion is accepted iff
-   RevCacheOps!InsertOK, a lookup returns RevCacheOps!Lookup.  The number returned by DeleteExpired
+   RevCacheOps!InsertOK, a lookup returns RevCacheOps!Lookup, GetAll returns exactly the live accepted
+   revocations, and a burst of concurrent callers has a linearization (see Burst).  The number returned by DeleteExpired
    is not part of the property (VERIF-DRIFT).                                                  *)
 EXTENDS RevCacheOps, TLC, Json, Sequences, FiniteSets
 
@@ -50,6 +51,39 @@ Get == LET obs == IF R.found THEN [ts |-> R.ts, ttl |-> R.ttl] ELSE None
                        ",accepted=" \o Age(s, R.lo))
        ELSE UNCHANGED <<acc, phys, fuzzy, failed>>
 
+\* GetAll = every accepted revocation that is still live, nothing else
+LiveItems(a, now) == {<<k, a[k].ts, a[k].ttl>> : k \in {x \in Keys : Live(a[x], now)}}
+ItemSet(items) == {<<items[i][1], items[i][2], items[i][3]>> : i \in 1..Len(items)}
+All == IF R.err THEN Bad("getall:error")
+       ELSE IF \A now \in Win : ItemSet(R.items) # LiveItems(acc, now)
+         THEN Bad(IF \E now \in Win : ItemSet(R.items) \subseteq LiveItems(acc, now) THEN "getall:live-revocation-missing"
+                  ELSE IF \E now \in Win : LiveItems(acc, now) \subseteq ItemSet(R.items) THEN "getall:returned-expired-or-foreign"
+                  ELSE "getall:wrong-set")
+       ELSE UNCHANGED <<acc, phys, fuzzy, failed>>
+
+(* A burst of concurrent callers (ops[i] = [c, kind, k, ts, ttl, ok, found, rts, rttl, items, inv, res]): the
+   cache is linearizable iff the calls can be put in an order that respects real time (a before b whenever
+   a.res < b.inv) in which every call returns what the abstract store prescribes at that point.  The calls
+   the driver makes after the burst (one lookup per key, GetAll) are part of ops, so the final content is
+   judged as well.  Each call may see any second of the burst's window.                            *)
+OpMatch(o, a) ==
+    CASE o.kind = "ins" -> ~o.err /\ \E now \in Win : o.ok = InsertOK(a[o.k], [ts |-> o.ts, ttl |-> o.ttl], now)
+      [] o.kind = "get" -> ~o.err /\ \E now \in Win :
+                              (IF o.found THEN [ts |-> o.rts, ttl |-> o.rttl] ELSE None) = Lookup(a[o.k], now)
+      [] o.kind = "all" -> ~o.err /\ \E now \in Win : ItemSet(o.items) = LiveItems(a, now)
+      [] o.kind = "del" -> ~o.err
+OpApply(o, a) == IF o.kind = "ins" /\ o.ok THEN [a EXCEPT ![o.k] = [ts |-> o.ts, ttl |-> o.ttl]] ELSE a
+RECURSIVE Lin(_, _, _)
+Lin(ops, rem, a) ==
+    IF rem = {} THEN TRUE
+    ELSE \E i \in rem :
+           /\ \A j \in rem : j = i \/ ~(ops[j].res < ops[i].inv)
+           /\ OpMatch(ops[i], a)
+           /\ Lin(ops, rem \ {i}, OpApply(ops[i], a))
+Burst == IF ~Lin(R.ops, 1..Len(R.ops), acc)
+           THEN Bad("burst:no-linearization:callers=" \o ToString(Cardinality({R.ops[i].c : i \in 1..Len(R.ops)}) - 1))
+         ELSE UNCHANGED <<acc, phys, fuzzy, failed>>       \* a burst is the last event of its history
+
 Del == IF R.err THEN Bad("delete-expired:error")
        ELSE /\ phys' = [k \in Keys |-> IF Live(phys[k], R.hi) THEN phys[k] ELSE None]
             /\ fuzzy' = (fuzzy \/ R.lo # R.hi)
@@ -64,6 +98,8 @@ Step == /\ l <= Len(Trace)
            ELSE CASE R.ev = "ins" -> Ins
                   [] R.ev = "get" -> Get
                   [] R.ev = "del" -> Del
+                  [] R.ev = "all" -> All
+                  [] R.ev = "burst" -> Burst
                   [] OTHER -> Bad("no-spec-action:" \o R.ev)
 Done == /\ l = Len(Trace) + 1
         /\ PrintT(<<"VERIF-DONE", Len(Trace)>>)
